@@ -13,6 +13,10 @@
 #include "colvar.h"
 #include "colvarbias.h"
 #include "colvarscript.h"
+#include "colvarbias_meta.h"
+#include "colvarcomp.h"
+#include "colvaratoms.h"
+#include "colvargrid.h"
 
 #include "json.h"
 #include "rng.h"
@@ -108,6 +112,7 @@ public:
   std::function<int()> force_callback;
   // called after every calc() of run() (observation hook for the properties)
   std::function<void(long step)> after_step;
+  std::function<void(long step)> before_step;   // called before the calc() of each step (inputs not yet filled)
 
   // ---- driving ----
   int configure(std::string const &conf);                 // read_config_string
@@ -156,6 +161,9 @@ public:
   TrajModel model;
 
   bool dead = false;   // killed: instance abandoned at next step boundary
+  bool halt_on_error = false;   // a real engine aborts the job when Colvars raises an error
+  bool halted = false;
+  std::string halt_message;
   std::string last_error() const { return error_lines.empty() ? "" : error_lines.back(); }
   bool log_contains(std::string const &needle) const;
 
@@ -176,4 +184,12 @@ struct colvars_verif_access {
   static int &log_level() { return colvarmodule::log_level_; }
   static std::vector<colvar *> &colvars(colvarmodule *m) { return m->colvars; }
   static std::vector<colvarbias *> &biases(colvarmodule *m) { return m->biases; }
+  static std::vector<std::shared_ptr<colvar::cvc>> &cvcs(colvar *c) { return c->cvcs; }
+  // metadynamics (multiple-walker mirrors, grids, pending hills)
+  static std::vector<colvarbias_meta *> &meta_replicas(colvarbias_meta *b) { return b->replicas; }
+  static colvar_grid_scalar *meta_energy_grid(colvarbias_meta *b) { return b->hills_energy.get(); }
+  static std::list<colvarbias_meta::hill> &meta_hills(colvarbias_meta *b) { return b->hills; }
+  static std::list<colvarbias_meta::hill>::iterator meta_new_hills_begin(colvarbias_meta *b) { return b->new_hills_begin; }
+  static std::string const &meta_replica_id(colvarbias_meta *b) { return b->replica_id; }
+  static long meta_state_step(colvarbias_meta *b) { return (long)b->state_file_step; }
 };
